@@ -494,6 +494,87 @@ def rule_pin_cite_extent(ctx: Ctx):
     ctx.ob("R-C02-8", "helpers/pin-cite-stores", n >= 2, f"{n} stores of a case citation's pin cite from a match inspected", node=None, mod=repo.mod("helpers"), nontrivial=False)
 
 
+def rule_span_end_not_before_token(ctx: Ctx):
+    """R-C02-13: the span end that extract_pin_cite hands to the short / supra / id. extractors is the anchoring token's end plus something that is
+    non-negative by construction (len(..), max(.., 0), sums of those).  The token is the core citation: an end in front of `token.end` cuts the
+    matched text (a short form whose page the pin-cite pattern reads only in part: '1211(A)')."""
+    repo = ctx.repo
+    fn = repo.func("helpers.extract_pin_cite")
+    mod = repo.mod("helpers")
+    ctx.ob("R-C02-13", "helpers.extract_pin_cite/located", fn is not None, "pin-cite scan located", node=None, mod=mod, nontrivial=False)
+    if fn is None:
+        return
+    words = fn.args.args[0].arg
+
+    def strip_cast(e):
+        while isinstance(e, ast.Call) and dotted(e.func) in ("cast", "typing.cast") and len(e.args) == 2:
+            e = e.args[1]
+        return e
+    toks = set()
+    for s_ in stmts_local(fn.body):
+        if isinstance(s_, (ast.Assign, ast.AnnAssign)) and s_.value is not None:
+            v = strip_cast(s_.value)
+            if isinstance(v, ast.Subscript) and isinstance(v.value, ast.Name) and v.value.id == words:
+                toks |= assigned_names(s_)
+
+    def binds(name):
+        return [x for x in stmts_local(fn.body) if isinstance(x, (ast.Assign, ast.AnnAssign, ast.AugAssign, ast.For, ast.With)) and name in assigned_names(x)]
+
+    def nonneg(e, depth=0):
+        if depth > 6:
+            return False
+        if isinstance(e, ast.Constant):
+            return isinstance(e.value, int) and not isinstance(e.value, bool) and e.value >= 0
+        if isinstance(e, ast.Call) and dotted(e.func) == "len" and len(e.args) == 1:
+            return True
+        if isinstance(e, ast.Call) and dotted(e.func) == "max" and e.args and not e.keywords:
+            return any(nonneg(a, depth + 1) for a in e.args)
+        if isinstance(e, ast.Call) and dotted(e.func) == "min" and e.args and not e.keywords:
+            return all(nonneg(a, depth + 1) for a in e.args)
+        if isinstance(e, ast.BinOp) and isinstance(e.op, (ast.Add, ast.Mult)):
+            return nonneg(e.left, depth + 1) and nonneg(e.right, depth + 1)
+        if isinstance(e, ast.IfExp):
+            return nonneg(e.body, depth + 1) and nonneg(e.orelse, depth + 1)
+        if isinstance(e, ast.Name):
+            bs = binds(e.id)
+            return bool(bs) and all((isinstance(b, (ast.Assign, ast.AnnAssign)) and b.value is not None and nonneg(b.value, depth + 1))
+                                    or (isinstance(b, ast.AugAssign) and isinstance(b.op, ast.Add) and nonneg(b.value, depth + 1)) for b in bs)
+        return False
+
+    def ge_end(e, depth=0):
+        if depth > 6:
+            return False
+        if isinstance(e, ast.Attribute) and e.attr == "end" and isinstance(e.value, ast.Name) and e.value.id in toks:
+            return True
+        if isinstance(e, ast.BinOp) and isinstance(e.op, ast.Add):
+            return (ge_end(e.left, depth + 1) and nonneg(e.right)) or (ge_end(e.right, depth + 1) and nonneg(e.left))
+        if isinstance(e, ast.IfExp):
+            return ge_end(e.body, depth + 1) and ge_end(e.orelse, depth + 1)
+        if isinstance(e, ast.Call) and dotted(e.func) == "max" and e.args and not e.keywords:
+            return any(ge_end(a, depth + 1) for a in e.args)
+        if isinstance(e, ast.Name):
+            bs = binds(e.id)
+            return bool(bs) and all((isinstance(b, (ast.Assign, ast.AnnAssign)) and b.value is not None and ge_end(b.value, depth + 1))
+                                    or (isinstance(b, ast.AugAssign) and isinstance(b.op, ast.Add) and nonneg(b.value)) for b in bs)
+        return False
+    n = 0
+    for r in walk_local(fn):
+        if not isinstance(r, ast.Return) or r.value is None:
+            continue
+        v = r.value
+        if not (isinstance(v, ast.Tuple) and len(v.elts) == 3):
+            ctx.ob("R-C02-13", "helpers.extract_pin_cite/return-shape", False, f"expected a (pin cite, span end, parenthetical) tuple, found `{norm(v)[:60]}`", node=r, mod=mod)
+            continue
+        e = v.elts[1]
+        if isinstance(e, ast.Constant) and e.value is None:
+            continue
+        n += 1
+        ctx.ob("R-C02-13", f"helpers.extract_pin_cite/span-end>=token-end:{n}", ge_end(e),
+               f"the returned span end `{norm(e)[:70]}` is <token>.end plus a term that is non-negative by construction; a bare difference of lengths can be "
+               "negative and then ends the span inside the matched citation", node=r, mod=mod)
+    ctx.ob("R-C02-13", "helpers.extract_pin_cite/returns", n >= 1 and bool(toks), f"{n} span-end return(s) anchored on token(s) {sorted(toks)}", node=fn, mod=mod, nontrivial=False)
+
+
 def run(ctx: Ctx):
     ctx.level = "other"
     ctx.explanation = (
@@ -523,6 +604,7 @@ def run(ctx: Ctx):
     # in markup mode the offsets refer to clean_text(markup, clean_steps) -- the text a caller can compute -- only if that is what Document stores
     from .c19 import rule_document_text
     ctx.guard(rule_document_text, ctx, "R-C02-10")
+    ctx.guard(rule_span_end_not_before_token, ctx)
     # every metadata offset is `token.end + <a length measured on the re-joined words>`: that arithmetic needs the words between two tokens to
     # concatenate to exactly the text between them (C12's append_text lemma), and the tokens to come from the very text the offsets index
     from .c01 import rule_scan_direction
